@@ -6,6 +6,7 @@ import (
 	"fmt"
 	"os"
 	"path/filepath"
+	"sort"
 	"strings"
 	"testing"
 	"testing/synctest"
@@ -227,7 +228,13 @@ func c08Entries() ([]refproto.Entry, map[string][]byte) {
 		{Name: "pipe", Mode: refproto.SIFIFO | 0644, Mtime: 1500000003},
 		{Name: "null", Mode: refproto.SIFCHR | 0666, Mtime: 1500000003, Rdev: 0x103},
 	}
-	for name, b := range data {
+	var names []string
+	for name := range data {
+		names = append(names, name)
+	}
+	sort.Strings(names) // wire order must not depend on map iteration: mutations address the n-th occurrence of a field
+	for _, name := range names {
+		b := data[name]
 		es = append(es, refproto.Entry{Name: name, Mode: refproto.SIFREG | 0644, Mtime: 1400000000, Size: int64(len(b)), UID: 1000, GID: 100, Sum: refproto.PlainMD4(b)})
 	}
 	return es, data
